@@ -214,11 +214,14 @@ func (f *Frame) lookupProgramVar(name string, env *specEnv) (Val, bool) {
 			}
 		}
 	}
-	for _, p := range fn.Params {
-		if p.Name() == name {
-			v := f.vals[p]
-			v.Typ = p.Type()
-			return v, true
+	// a parameter that is reassigned in the body is shadowed by its current value, except inside old()
+	if env.inOld || env.block == nil {
+		for _, p := range fn.Params {
+			if p.Name() == name {
+				v := f.vals[p]
+				v.Typ = p.Type()
+				return v, true
+			}
 		}
 	}
 	for _, fv := range fn.FreeVars {
@@ -293,6 +296,13 @@ func (f *Frame) lookupProgramVar(name string, env *specEnv) (Val, bool) {
 		v := f.val(best)
 		v.Typ = best.Type()
 		return v, true
+	}
+	for _, p := range fn.Params {
+		if p.Name() == name {
+			v := f.vals[p]
+			v.Typ = p.Type()
+			return v, true
+		}
 	}
 	_ = e
 	return Val{}, false
@@ -452,7 +462,7 @@ func (f *Frame) specQuant(n SQuant, env *specEnv) Val {
 		}
 		binders = append(binders, fmt.Sprintf("(%s %s)", vn, e.tt().sortOf(gt)))
 		ne.bound[v.Name] = Val{T: vn, Typ: gt}
-		if isInteger(gt) && v.Type != "int" {
+		if isInteger(gt) && v.Type != "int" && v.Type != "ref" {
 			if rc := e.tt().rangeConstraint(vn, gt); rc != "" {
 				ranges = append(ranges, rc)
 			}
@@ -489,6 +499,10 @@ func (f *Frame) resolveType(s string) types.Type {
 		return nil
 	case s == "mathint":
 		return mathInt
+	case s == "ref":
+		return types.Typ[types.Uintptr]
+	case s == "error":
+		return types.Universe.Lookup("error").Type()
 	}
 	if o := types.Universe.Lookup(s); o != nil {
 		if tn, ok := o.(*types.TypeName); ok {
@@ -695,6 +709,13 @@ func (f *Frame) specCall(n SCall, env *specEnv) Val {
 		ty := n.Args[1].(SType)
 		gt := f.resolveType(ty.Text)
 		return Val{T: fmt.Sprintf("(i-ref %s)", x.T), Typ: gt}
+	case "iref": // iref(iface): the reference held by an interface value
+		x := f.specTerm(n.Args[0], env)
+		return Val{T: fmt.Sprintf("(i-ref %s)", x.T), Typ: mathInt}
+	case "min":
+		a := f.specTerm(n.Args[0], env)
+		b := f.specTerm(n.Args[1], env)
+		return Val{T: fmt.Sprintf("(ite (< %s %s) %s %s)", a.T, b.T, a.T, b.T), Typ: mathInt}
 	case "ref": // ref(slice): backing array identity
 		x := f.specTerm(n.Args[0], env)
 		return Val{T: fmt.Sprintf("(s-ref %s)", x.T), Typ: mathInt}
